@@ -3,7 +3,7 @@ import cmd
 from functools import wraps
 from pyparsing.exceptions import ParseException
 from qbee.stmt import Block
-from qbee.exceptions import InternalError, SyntaxError
+from qbee.exceptions import InternalError, SyntaxError, CompileError
 from qbee import grammar
 from .module import QModule
 from .machine import QvmMachine
@@ -530,11 +530,15 @@ Type help or ? to list commands.
             print('Error parsing expression:', e)
             return
 
-        tree.bind(self.eval_context)
         try:
+            tree.bind(self.eval_context)
             value = tree.eval()
-        except EvalError as e:
+        except (EvalError, CompileError, InternalError) as e:
             print('Eval error:', e)
+            return
+        except ArithmeticError as e:
+            # division by zero or overflow in the expression itself
+            print('Eval error:', str(e) or type(e).__name__)
             return
 
         print(value)
